@@ -139,7 +139,14 @@ def gen(rng, idx, tier):
         else:
             data = conformant(r2, kind)
             mut = "none"
-            if cls == "b":
+            if cls == "b" and kind == "rq" and r2.randrange(6) == 0:
+                # a well-framed request in which one presentation context item has no transfer syntax sub-item
+                n = r2.choice([1, 2, 5])
+                ctxs = [(2 * i + 1, r2.choice([C.VERIFICATION, C.CT, "1.2.3.4.5.6"]), [C.IVLE]) for i in range(n)]
+                j = r2.randrange(n)
+                ctxs[j] = (ctxs[j][0], ctxs[j][1], [])
+                data, mut = W.associate_rq(called="ANY-SCP", contexts=ctxs), "no-transfer-syntax"
+            elif cls == "b":
                 data, mut = mutate(r2, data)
                 if mut == "none":
                     cls = "a"
